@@ -5,19 +5,13 @@
 
 package http_api
 
-// Serve: the server is built with the handler given and an error log only - in particular WITHOUT read / write / idle deadlines: the
-// views of nsqadmin legitimately wait for slow upstreams (C18 "partial view + warning" for every subset of failing upstreams) and /pub, /mpub
-// bodies may be large; a closed listener is a clean exit (nil), any other serve error is returned.
-//@ ghost r5mServes int
-//@ ghost r5mServeSrv *http.Server
-//@ ghostgroup r5mServes, r5mServeSrv
-//@ extern (*net/http.Server).Serve(srv, l) (err)
-//@   modifies r5mServes
-//@   onreturn r5mServes := r5mServes + 1
-//@   onreturn r5mServeSrv := srv
+// Serve: ONE http.Server, carrying exactly the handler it was given, is run on exactly the listener it was given, and it has no response / request
+// deadline: the views of nsqadmin legitimately wait for slow upstreams (C18 "partial view + warning" for every subset of failing upstreams) and
+// /pub, /mpub bodies may be large - an answer is never cut short by the server itself. ((*http.Server).Serve: extern in lib/trusted/r5H.spec,
+// `modifies *` because the handlers run inside the accept loop; what the server carried is recorded in the r5HSrv* ghosts.)
 //@ func Serve(listener net.Listener, handler http.Handler, proto string, logf lg.AppLogFunc) error
-//@   props C18 C10 C15 C17
-//@   requires listener != nil
-//@   ensures[served-once] r5mServes == old(r5mServes) + 1 && r5mServeSrv != nil && fresh(r5mServeSrv)
-//@   ensures[handler-as-given] r5mServeSrv.Handler == handler
-//@   ensures[no-deadlines] r5mServeSrv.ReadTimeout == 0 && r5mServeSrv.ReadHeaderTimeout == 0 && r5mServeSrv.WriteTimeout == 0 && r5mServeSrv.IdleTimeout == 0
+//@   props C18 C17 C10 C15
+//@   requires listener != nil && logf != nil
+//@   ensures[one-server] r5HSrvServes == old(r5HSrvServes) + 1
+//@   ensures[serves-the-given-handler-on-the-given-listener] r5HSrvHandler == handler && r5HSrvListener == listener
+//@   ensures[answers-are-never-cut-short] r5HSrvWriteTimeout == 0 && r5HSrvReadTimeout == 0
